@@ -213,6 +213,43 @@ func (h *H) faultActions(rt *rapid.T, fc *faultCounters) map[string]func(*rapid.
 			}
 			h.settleInbound()
 		},
+		// a publisher is stuck inside Write (the peer stopped draining) when
+		// the inbound direction fails: the read routine gives the connection
+		// up, which is what releases the publisher
+		"writerStuckThenReadFails": func(rt *rapid.T) {
+			c := h.Current()
+			if c == nil || !c.Accepted() || c.WritersParked() > 0 || h.Store.Parked() > 0 || len(h.ParkedGates()) > 0 || !h.App.InCall() || !h.ReaderWaiting() {
+				rt.Skip("needs an idle accepted connection with the read routine waiting for input")
+			}
+			level := byte(rapid.IntRange(1, 2).Draw(rt, "level"))
+			c.ArmWrite(sim.WFault{Off: c.OutLen() + rapid.IntRange(0, 12).Draw(rt, "parkOff"), Kind: sim.WPark})
+			h.Act("writerStuckThenReadFails: the next Write parks")
+			call := h.pub(level, false)
+			if c.WritersParked() == 0 || h.IsDone(call) || !h.ReaderWaiting() {
+				// refused before it got to the connection, or somebody else parked
+				for c.ReleaseWrite() {
+				}
+				return
+			}
+			// (only the inbound direction fails: the Write stays stuck until
+			// somebody closes the connection)
+			rk := rapid.SampledFrom([]int{sim.RReset, sim.REOF}).Draw(rt, "readFault")
+			h.Act("inbound %s on conn=%d", rfaultNames[rk], c.N)
+			c.ArmRead(sim.RFault{Off: c.InEnqueued(), Kind: rk})
+			h.MustPoll("the publisher which is stuck inside Write being released by the read routine giving up the connection", func() bool { return c.WritersParked() == 0 })
+			h.SettleCall(call)
+			h.settleInbound()
+			h.PollExchanges()
+			if h.IsDone(call) && call.Err == nil {
+				found := false
+				for _, a := range h.accepted[level] {
+					found = found || a == call
+				}
+				if !found {
+					h.accepted[level] = append(h.accepted[level], call)
+				}
+			}
+		},
 		"storeFault": func(rt *rapid.T) {
 			kind := rapid.SampledFrom([]byte{'S', 'D', 'L'}).Draw(rt, "op")
 			h.Store.FailNext(kind)
